@@ -176,6 +176,44 @@ def corrupt(kind, X, rng):
     return f, '\n'.join(lines)
 
 
+FOREIGN = {'dfa': ['epsilon', 'accept', 'reject', 'blank', 'stack_symbols', 'tape_symbols'],
+           'nfa': ['accept', 'reject', 'blank', 'stack_symbols', 'tape_symbols'],
+           'pda': ['accept', 'reject', 'blank', 'tape_symbols'],
+           'tm': ['epsilon', 'stack_symbols']}
+
+
+def foreign_keyword_state(kind, X, rng):
+    """rename one state to a word that is a declaration keyword of another automaton kind only (a legal state name here)"""
+    import json
+    q = rng.choice(X['Q'])
+    new = rng.choice(FOREIGN[kind])
+    if new in X['Q']:
+        return X
+
+    def ren(x):
+        if isinstance(x, list):
+            return [ren(y) for y in x]
+        return x
+    Y = json.loads(json.dumps(X))
+    f = lambda s: new if s == q else s
+    Y['Q'] = [f(s) for s in Y['Q']]
+    Y['q0'] = f(Y['q0'])
+    if 'F' in Y:
+        Y['F'] = [f(s) for s in Y['F']]
+    for k in ('qa', 'qr'):
+        if k in Y:
+            Y[k] = f(Y[k])
+    if kind == 'dfa':
+        Y['delta'] = [[f(p), a, f(t)] for p, a, t in Y['delta']]
+    elif kind == 'nfa':
+        Y['delta'] = [[f(p), a, [f(t) for t in T]] for p, a, T in Y['delta']]
+    elif kind == 'pda':
+        Y['delta'] = [[f(p), a, u, [[f(t), v] for t, v in T]] for p, a, u, T in Y['delta']]
+    else:
+        Y['delta'] = [[f(p), a, f(t), b, d] for p, a, t, b, d in Y['delta']]
+    return Y
+
+
 def usable(kind, X):
     if set(X['Q']) & OWN_KEYWORDS[kind]:
         return False
@@ -194,6 +232,8 @@ def cases(ctx):
         for i in range(n * K):
             X = {'dfa': lambda: gen.random_dfa(rng, 4), 'nfa': lambda: gen.random_nfa(rng, 4, eps=rng.choice(['_', 'ε', 'e'])),
                  'pda': lambda: gen.random_pda(rng), 'tm': lambda: gen.random_tm(rng)}[kind]()
+            if rng.random() < 0.15:
+                X = foreign_keyword_state(kind, X, rng)
             if not usable(kind, X):
                 continue
             for j in range(2):
